@@ -207,6 +207,8 @@ pub fn gen_cfg(id: &str, tier: Tier, variant: u64) -> GenCfg {
             let mut g = GenCfg::new(Mode::Elide, ops);
             g.weights.consume = 2;
             g.weights.remove = 14;
+            g.weights.strip = 6;
+            g.weights.unique_root = 5;
             g
         }
         // a fresh allocation made by make_mut, or an object whose partners were
@@ -259,6 +261,7 @@ pub fn gen_cfg(id: &str, tier: Tier, variant: u64) -> GenCfg {
         }
         "C12" => {
             g.weights.consume = 3;
+            g.weights.unique_root = 5;
         }
         "C14" => {
             g.weights.unadopt = 12;
